@@ -244,12 +244,18 @@ def lexIdentPath (K : KwTable) (s : List Char) : Option (List (List Char)) := id
 
 /-! ## variables, parameters -/
 
-/-- `Variable.get_string` -/
-def variableToString (isSystem : Bool) (v : List Char) : List Char :=
-  (if isSystem then ['@', '@'] else ['@']) ++ v
+/-- `[a-zA-Z_.$]+` (ASCII reading of the class; `re.fullmatch` without IGNORECASE) -/
+def isPlainVarName (v : List Char) : Bool :=
+  v != [] && v.all (fun c => ('a' ≤ c && c ≤ 'z') || ('A' ≤ c && c ≤ 'Z') || c = '_' || c = '.' || c = '$')
 
-/-- `Parameter.get_string` -/
-def parameterToString (v : List Char) : List Char := ':' :: v
+/-- `Variable.get_string` (since /repo 6a738d8: a name that is not `[a-zA-Z_.$]+` is printed quoted, with the first of
+back-quote, double quote, single quote that does not occur in it) -/
+def variableToString (isSystem : Bool) (v : List Char) : List Char :=
+  let q : Char := if !v.contains '`' then '`' else if !v.contains '"' then '"' else '\''
+  (if isSystem then ['@', '@'] else ['@']) ++ (if isPlainVarName v then v else q :: v ++ [q])
+
+/-- `Parameter.get_string` (since /repo fa4fc42: the positional placeholder prints as written) -/
+def parameterToString (v : List Char) : List Char := if v = ['?'] then ['?'] else ':' :: v
 
 /-- VARIABLE / SYSTEM_VARIABLE rule + decoding (mysql: lexer action; mindsdb since 5f4cdd1: `MindsDBParser.variable_name`
 on the source text) on a text starting with `@`:
